@@ -6,3 +6,5 @@ string oid = "?";
 void create () { seteuid (getuid ()); }
 void set_oid (string s) { oid = s; }
 void net_dead () { }
+// target of get_char() / input_to() in the `getchar` / `inputto` / `serve` steps (the argument is logged on the C side as `cmd`)
+void gc_cb (string s) { }
